@@ -190,6 +190,15 @@ func (publisher *Publisher) Places() map[string]*place {
 
 		// Get all of the unique place names.
 		for placeTag, node := range publisher.doc.Places() {
+			// Hidden individuals are treated as if they never existed, that
+			// includes the places they have been.
+			if publisher.options.LivingVisibility == LivingVisibilityHide {
+				individual := individualForNode(publisher.doc, node)
+				if individual != nil && individual.IsLiving() {
+					continue
+				}
+			}
+
 			prettyName := prettyPlaceName(placeTag.Value())
 
 			if prettyName == "" {
